@@ -33,7 +33,7 @@ Definition so_coveredb (d : db) (c : so_cq) : bool :=
   match c with
   | CqInsertNode l => let id := fst (insert_node_db d) in kvs_okb (reserve_kv (snd (insert_node_db d)) id) id l
   | CqInsertValues id l => graph_index (gr d) id && iors_okb (reserve_kv d id) id l
-  | CqInsertEdge f t => (0 <? f) && (0 <? t) && is_node (gr d) f && is_node (gr d) t
+  | CqInsertEdge f t => (0 <? f) && (0 <? t) && (is_node (gr d) f && is_node (gr d) t || is_nil (undo d))
   | CqRemove id =>
     negb (is_nil (kvs_get (vals d) id)) &&
     forallb (fun x : kv => not_indexedb d (fst x)) (kvs_get (vals d) id) &&
@@ -74,7 +74,9 @@ Proof.
   destruct c as [l|id l|f t|id]; cbv zeta.
   - rewrite kvs_okb_iff. tauto.
   - rewrite andb_true_iff, iors_okb_iff. tauto.
-  - rewrite !andb_true_iff, !Z.ltb_lt. tauto.
+  - rewrite !andb_true_iff, orb_true_iff, andb_true_iff, !Z.ltb_lt.
+    assert (A : is_nil (undo d) = true <-> undo d = []) by (destruct (undo d); cbn [is_nil]; split; congruence).
+    rewrite A. destruct (is_node (gr d) f), (is_node (gr d) t); cbn [andb]; intuition congruence.
   - rewrite !andb_true_iff, orb_true_iff, !andb_true_iff, !Z.ltb_lt, !Z.eqb_eq, negb_true_iff, forallb_forall.
     assert (A : is_nil (kvs_get (vals d) id) = false <-> kvs_get (vals d) id <> []).
     { destruct (kvs_get (vals d) id); cbn [is_nil]; split; congruence. }
